@@ -60,8 +60,8 @@ PERTURB = {"MALLOC_PERTURB_": "85"}
 
 def plan(tier):
     if tier == "thorough":
-        return [{"variant": "plain", "workers": 12, "cases": 6000, "name": "plain", "env": PERTURB},
-                {"variant": "asan", "workers": 4, "cases": 600, "name": "asan"}]
+        return [{"variant": "plain", "workers": 12, "cases": 3500, "name": "plain", "env": PERTURB},
+                {"variant": "asan", "workers": 4, "cases": 350, "name": "asan"}]
     return [{"variant": "plain", "workers": 7, "cases": 600, "name": "plain", "env": PERTURB},
             {"variant": "asan", "workers": 1, "cases": 80, "name": "asan"}]
 
@@ -544,7 +544,7 @@ def run(ctx):
             # keep magnitudes in the range this check is about
             for nm in ls.live():
                 r = ls.ref[nm]
-                if any(abs(x) > 1e6 for x in r.v):
+                if any(not (abs(x) <= 1e6) for x in r.v):
                     ls.step("%s = %s" % (nm, lit(rng, r.tc, min(r.m, 3), min(r.n, 3))), "construct:renew")
             x = rng.uniform(0, tot)
             for g, w in GENS:
